@@ -117,6 +117,8 @@ def run(ctx) -> None:
     rd = idx.cls(RD, "ResultDict").methods.get("transform")
     r1.instance(rd.short)
     from .c16 import _dict_normal
+    from ..sem import inline_private_helpers as _iph7
+    rd = _iph7(idx, rd)
     RDS = Sem(idx, rd)
     okrd = False
     for c_ in ast.walk(rd.node):
